@@ -20,7 +20,9 @@ type QOpts struct {
 }
 
 var plainNames = []string{"a", "b", "c", "x", "y", "id", "name", "f1", "F", "Ab_9", "_", "__typename", "user", "T", "U"}
-var keywordNames = []string{"on", "query", "mutation", "subscription", "fragment", "true", "false", "null", "type", "schema", "extend", "implements", "input", "repeatable", "directive", "enum", "union", "scalar", "interface"}
+var keywordNames = []string{"on", "query", "mutation", "subscription", "fragment", "true", "false", "null", "type", "schema", "extend", "implements", "input", "repeatable", "directive", "enum", "union", "scalar", "interface",
+	// the JSON keys of the syntax tree's own encoding: a name that equals a key must stay a name
+	"Alias", "Name", "Arguments", "Directives", "SelectionSet", "TypeCondition", "Definition", "ObjectDefinition", "Position", "Kind", "Raw", "Children", "Value", "VariableDefinition", "Operation"}
 
 func name(r *core.Rand, o *QOpts) string {
 	if o.KeywordNames && r.Chance(1, 4) {
